@@ -3,7 +3,7 @@ import struct
 from fractions import Fraction
 
 from vlib.engine import Case
-from . import e2e, geomgen as G, topo2
+from . import e2e, geomgen as G, topo2, options_cases
 from .geomgen import f32, f32_bits, bits_f32
 
 ID = "C12"
@@ -357,6 +357,8 @@ def generate(rng, tier):
     n = 1500 if tier == "thorough" else 400
     for i in range(n):
         cases += make_pair(rng, tier, i)
+    # SetAttributeExplicitQuantization stores origin / range through Options::SetVector / SetFloat: the option store vs. its Lean model
+    cases += options_cases.cases(rng, 600 if tier == "thorough" else 150)
     return cases
 
 
